@@ -179,6 +179,7 @@ impl ReadXml for Maybe<Candidate> {
         };
         let mut name = None;
         let mut reject_policy = false;
+        let mut other_content = false;
         loop {
             match reader.read_resolved_event()? {
                 (ResolveResult::Bound(XNM), Event::Start(tag))
@@ -204,6 +205,12 @@ impl ReadXml for Maybe<Candidate> {
                                 _ = reader.read_to_end(tag.to_end().name())?;
                                 reject_policy = true;
                             }
+                            // any other action: not a trivial reject policy
+                            (_, Event::Start(tag)) => {
+                                _ = reader.read_to_end(tag.to_end().name())?;
+                                other_content = true;
+                            }
+                            (_, Event::Empty(_)) => other_content = true,
                             (_, Event::Comment(_)) => continue,
                             (_, Event::End(tag)) if tag == end => break,
                             (ns, event) => {
@@ -213,6 +220,12 @@ impl ReadXml for Maybe<Candidate> {
                         }
                     }
                 }
+                // terms, further actions, ...: not a trivial reject policy
+                (_, Event::Start(tag)) => {
+                    _ = reader.read_to_end(tag.to_end().name())?;
+                    other_content = true;
+                }
+                (_, Event::Empty(_)) => other_content = true,
                 (_, Event::Comment(_)) => continue,
                 (_, Event::End(tag)) if tag == end => break,
                 (ns, event) => {
@@ -221,7 +234,10 @@ impl ReadXml for Maybe<Candidate> {
                 }
             }
         }
-        if reject_policy {
+        if other_content {
+            tracing::warn!("skipping policy-statement '{name:?}' with content other than a default reject action");
+            Ok(Self(None))
+        } else if reject_policy {
             Ok(Self(Some((
                 name.ok_or(ReadError::MissingElement {
                     msg_type: "policy-statement",
